@@ -1861,3 +1861,80 @@ func resultExits(fn *ssa.Function, ri int) []resultExit {
 	}
 	return out
 }
+
+// ruleTypedNil: a pointer that may be nil is not put into an interface-typed field before the error that accompanies
+// it has been tested. `t.conn, err = dial()` with dial() returning (*net.TCPConn, error) stores, on failure, a non-nil
+// net.Conn holding a nil *TCPConn: every later `t.conn == nil` test says "connected", and the first method call on it
+// dereferences nil (a panic on the message loop instead of an error).
+func ruleTypedNil(c *Ctx, rule string) {
+	w := c.w
+	n := 0
+	for _, fn := range w.All {
+		if !w.isMain(fn) || fn.Blocks == nil {
+			continue
+		}
+		for _, st := range storesIn(fn) {
+			fa, ok := st.Addr.(*ssa.FieldAddr)
+			if !ok {
+				continue
+			}
+			mi, ok := st.Val.(*ssa.MakeInterface)
+			if !ok {
+				continue
+			}
+			if _, isPtr := mi.X.Type().Underlying().(*types.Pointer); !isPtr {
+				continue
+			}
+			// a nil pointer constant (the failure return of a merged helper, after the paths were separated)
+			if k, isK := mi.X.(*ssa.Const); isK && k.IsNil() {
+				n++
+				c.bad(rule, fmt.Sprintf("%s/typed-nil@%s", w.fname(fn), fieldRef(fa)), w.ipos(st), "a nil pointer ("+types.TypeString(k.Type(), nil)+") is stored into the interface field "+fieldRef(fa)+": the field then holds a non-nil interface around a nil pointer, `== nil` tests on it pass, and the next method call through it dereferences nil - a panic where an error was due (a failed dial must leave the field nil)")
+				continue
+			}
+			// the tail of a merged helper: the pointer and its error are joined from the helper's returns
+			if ph, isPhi := mi.X.(*ssa.Phi); isPhi {
+				hasNil := false
+				for _, leaf := range phiLeaves(ph) {
+					if isNilConst(leaf) {
+						hasNil = true
+					}
+				}
+				if !hasNil {
+					continue
+				}
+				var pe *ssa.Phi
+				for _, in := range ph.Block().Instrs {
+					if q, isQ := in.(*ssa.Phi); isQ && q != ph && types.TypeString(q.Type(), nil) == "error" {
+						pe = q
+					}
+				}
+				n++
+				guarded := pe != nil && w.requires(fn, st, func(a Atom) bool { return a.Kind == "nil" && strip(a.X) == ssa.Value(pe) }, true)
+				c.check(guarded, rule, fmt.Sprintf("%s/typed-nil@%s", w.fname(fn), fieldRef(fa)), w.ipos(st), "the pointer is stored into the interface field only after its error was tested", "a pointer that is nil on the failure paths of the (merged) helper that produced it is stored into the interface field "+fieldRef(fa)+" before the accompanying error is tested: on failure the field holds a non-nil interface around a nil pointer, `== nil` tests on it pass, and the next method call through it dereferences nil - a panic where an error was due")
+				continue
+			}
+			ex, ok := mi.X.(*ssa.Extract)
+			if !ok {
+				continue
+			}
+			call, ok := ex.Tuple.(*ssa.Call)
+			if !ok || errIndex(call) < 0 || errIndex(call) == ex.Index {
+				continue
+			}
+			if g := call.Call.StaticCallee(); g != nil && w.isMain(g) && g.Blocks != nil && w.nilStatus(g, ex.Index, map[string]bool{}) == nilNever {
+				continue
+			}
+			n++
+			guarded := w.requires(fn, st, errNil(call), true)
+			if reason, named := c08Assumed[w.calleeName(call)]; named && !guarded {
+				// the constructor's nil result is one of the named, re-validated assumptions of C08 (nil-escape at this very site)
+				c.assume(rule, fmt.Sprintf("%s/typed-nil@%s", w.fname(fn), fieldRef(fa)), w.ipos(st), reason)
+				continue
+			}
+			c.check(guarded, rule, fmt.Sprintf("%s/typed-nil@%s", w.fname(fn), fieldRef(fa)), w.ipos(st), "the pointer is stored into the interface field only after its error was tested", "result "+fmt.Sprint(ex.Index)+" of "+w.calleeName(call)+" (a pointer that is nil when the call fails) is stored into the interface field "+fieldRef(fa)+" before the call's error is tested: on failure the field holds a non-nil interface around a nil pointer, `== nil` tests on it pass, and the next method call through it dereferences nil - a panic where an error was due")
+		}
+	}
+	if n == 0 {
+		c.okTrivial(rule, "typed-nil/none", "-", "no pointer result is stored into an interface field next to an untested error")
+	}
+}
